@@ -225,7 +225,7 @@ package stream
 
 //@ func (*checkpoint).Load
 //@ params s
-//@ props C02 C06 C15 C05
+//@ props C02 C06 C15 C05 C12
 //@ requires s != nil && s.loadLock != nil && s.metadata != nil && s.client != nil && s.config != nil && s.offsetLatestSeqNoInit != nil && s.offsetLatestSeqNoInit.config != nil
 //@ let dump = ret(metadata.Metadata.Load, 0, 0)
 //@ let exist = ret(metadata.Metadata.Load, 0, 1)
@@ -252,7 +252,7 @@ package stream
 //@ ensures.dom[C02] forall vb uint16 :: has(result0, vb) == has(dump, vb)
 //@ ensures.fresh[C02] fresh(result0) && fresh(result1)
 //@ ensures.resume[C02,C06] !latest ==> forall vb uint16 :: has(dump, vb) ==> result0[vb] != nil && result0[vb].SnapshotMarker != nil && result0[vb].SeqNo == dump[vb].Checkpoint.SeqNo && result0[vb].VbUUID == dump[vb].Checkpoint.VbUUID && result0[vb].StartSeqNo == dump[vb].Checkpoint.Snapshot.StartSeqNo && result0[vb].EndSeqNo == dump[vb].Checkpoint.Snapshot.EndSeqNo
-//@ ensures.end[C02] !latest ==> forall vb uint16 :: has(dump, vb) ==> result0[vb].LatestSeqNo == ite(finite, ite(has(seqs, vb), seqs[vb], 0), 0xffffffffffffffff)
+//@ ensures.end[C02,C12] !latest ==> forall vb uint16 :: has(dump, vb) ==> result0[vb].LatestSeqNo == ite(finite, ite(has(seqs, vb), seqs[vb], 0), 0xffffffffffffffff)
 //@ ensures.notahead[C15,C06] !latest ==> forall vb uint16 :: has(dump, vb) ==> dump[vb].Checkpoint.SeqNo <= ite(has(seqs, vb), seqs[vb], 0)
 //@ ensures.clean[C05] !latest ==> result2 == false && forall vb uint16 :: !has(result1, vb)
 //@ ensures.latest[C02,C06] latest ==> forall vb uint16 :: has(dump, vb) ==> result0[vb] != nil && result0[vb].SnapshotMarker != nil && result0[vb].SeqNo == ite(has(seqs, vb), seqs[vb], 0) && result0[vb].StartSeqNo == result0[vb].SeqNo && result0[vb].EndSeqNo == result0[vb].SeqNo && result0[vb].LatestSeqNo == ite(finite, result0[vb].SeqNo, 0xffffffffffffffff)
